@@ -393,6 +393,10 @@ def _buf(op, env):
         if b['state'] == 'freed':
             # a freed buffer owns no number: nothing to send, nothing to return
             return Expect([], method='Buffer.free(already freed)')
+        if (op.get('completion') or {}).get('$fn') == 'raise':
+            # the completion function raises before a message exists: nothing
+            # is sent, so nothing may be returned to the allocator either
+            return Expect([], raises='Boom', method='Buffer.free(completion raises)')
         led = [('buffer', 'release', n)] if b.get('owns_block', True) else []
         return Expect([msg('/b_free', n, comp())], ledger=led, method=name)
     if m == 'alloc':
